@@ -229,6 +229,7 @@ func init() {
 	streams["conc"] = func(seed int64, idx int) *scenario { return runConcScenario(seed*1000003 + int64(idx)) }
 	streams["pair"] = func(seed int64, idx int) *scenario { return runPairScenario(seed*1000003 + int64(idx)) }
 	streams["join"] = func(seed int64, idx int) *scenario { return runJoinScenario(seed*1000003 + int64(idx)) }
+	streams["zcut"] = func(seed int64, idx int) *scenario { return runZCutScenario(seed*1000003 + int64(idx)) }
 	streams["srv"] = func(seed int64, idx int) *scenario { return runServerScenario(seed*1000003+int64(idx), false) }
 	streams["origin"] = func(seed int64, idx int) *scenario { return runServerScenario(seed*1000003+int64(idx), true) }
 	streams["cli"] = func(seed int64, idx int) *scenario { return runClientScenario(seed*1000003 + int64(idx)) }
